@@ -68,7 +68,7 @@ def chain_cases(rng, v, nstruct, per_struct, ex):
                 cname = '%s_%d' % (F, len(seps.split('&')[0]) + 1)
                 # (a subcomponent is addressed from its component by name; F_j_k paths are resolved from the field - C14)
             cases.append({'version': v, 'structure': st, 'groups': groups, 'segment': S, 'field': F, 'component': cname, 'sub': sname,
-                          'value': val, 'reads': rng.choice([1, 2, 3]), 'expected_line': S + '|' * (i + 1) + seps + val})
+                          'value': val, 'reads': rng.choice([1, 2, 3]), 'rounds': rng.choice([1, 1, 2, 3, 4]), 'expected_line': S + '|' * (i + 1) + seps + val})
     return cases
 
 
